@@ -56,3 +56,7 @@ impl<'a> core::convert::From<&'a BigUint> for Mpi {
     #[verifier::external_body]
     fn from(b: &'a BigUint) -> (r: Mpi) ensures r.mv() == b.be_bytes() { unimplemented!() }
 }
+impl core::convert::From<BigUint> for Mpi {
+    #[verifier::external_body]
+    fn from(b: BigUint) -> (r: Mpi) ensures r.mv() == b.be_bytes() { unimplemented!() }
+}
